@@ -34,6 +34,9 @@ CHECKS = {
              note="Trusted base: rustc MIR construction, sefacts, salib.absint, the std contracts of str::parse::<u32>, u32::to_string, HashMap::get/insert, Vec::push/len. The model of the canonical-number helper is re-verified from its own MIR on every run. Assumption: the u32 counter does not wrap (fewer than 2^30 - 2 fresh slots per thread)."),
  "C15": dict(text="Static necessary conditions of truthful saturation / stop reasons: apply_rewrites returns before != after with the first progress measurement dominating every searcher/applier invocation and the second post-dominating all of them; the measure's equality is derived over its four fields, each computed from its source; every StopReason variant is constructed only under its own condition (frozen reason table, counter on the greater side); hooks and limits are chained on every iteration, the loop ends only with a reason and pushes one record per round; the report's node count is total_number_of_nodes() read after the loop with no mutation in between. 'No measure change implies nothing observable changed' is argued, not decided.",
              technique="custom MIR analysis: dominance / post-dominance of measurement sites, condition table for constructor sites incl. closures, value-flow of report fields", ref="§4 C15"),
+ "C19": dict(text="For the first sentence of the property (equality, hash and ordering depend only on the set of pairs) the check amounts to an inductive proof of the representation invariant 'keys strictly increasing': private field, closed writer set {new, insert, remove, values_mut, into_iter}, insert/remove write at the index binary search returned for the very key, values_mut projects values only, search is binary_search_by_key on the key, and Eq/Hash/Ord are the derived impls. For the operations (get, keys/values, inverse, identity, compose / compose_partial / compose_fresh, bijection_from_fresh_to, try_union, is_perm, is_bijection) an operand-role table decides that inserted keys and values come from the documented sources in the documented order. Agreement with a reference map on all sequences and the algebraic laws are not mechanically derived; the claimed level is therefore 'other', not 'proof'.",
+             technique="custom MIR analysis: who-may-write closure of a private field, writer-idiom verification, derived-impl census, operand-role table", ref="§4 C19",
+             note="Trusted base: rustc privacy checking and MIR, sefacts/salib, the std contract of slice::binary_search_by_key, smallvec insert/remove/index_mut behaving like Vec's."),
  "C02": dict(text="Static necessary conditions of congruence-closure completeness: inter-procedural work-list summaries prove that no public &mut entry point returns with a non-empty work-list in any feature configuration; the drain loop exits only on empty; every class-level change re-queues usages with Full; PendingType::merge truth table; remove/re-insert pairing and self-symmetry derivation in the work-list handler; orbit closure feeds the stored slot set (known finding F1). Does not decide that the fixpoint equals the congruence closure.",
              technique="custom MIR analysis: inter-procedural must-pass-through summaries (greatest fixpoint), path rules, exhaustive constant evaluation of a 2x2 match, value dependence", ref="§4 C02"),
  "C01": dict(text="Static necessary conditions of equality soundness, decided on the MIR of every feature configuration: eq() answers true only via the class-group membership test behind the id and slot-set guards on canonicalised operands; the slot-set writer's cap is an intersection; add-permutation / merge branch discipline; union-find edge orientation. Does not decide soundness of computed slot maps as values.",
